@@ -6,7 +6,7 @@ ID = "C16"
 LEVEL = "exploration"
 RULE = ("all globs of <=K tokens over a 26-token alphabet (literals incl. . - + ( $ z-with-dot; ? * ** / [ab] [!a] "
         "{a,b} @(a|b) ?(a) +(a) *(a) \\* \\? and {a,(} @(a|,) {b,a|b}: delimiters of one bracket family as literals inside the other; {b,a/**} @(b|a/*): alternatives that contain a separator and a wildcard) x all well-formed path strings of <=L characters over "
-        "{a,b,z-with-dot,.,-,A,/,$,*} x ignore-case on/off (quick K=3,L=4; thorough K=4,L=4, K=3,L=5 and K=5,L=3); oracle 1: "
+        "{a,b,z-with-dot,.,-,A,/,$,*} (and, for globs of <=2 tokens, strings of <=5 characters over {a,b,LF,TAB,/}) x ignore-case on/off (quick K=3,L=4; thorough K=4,L=4, K=3,L=5 and K=5,L=3); oracle 1: "
         "independent backtracking matcher == Pattern::matches; oracle 2: every ancestor directory of a matching path "
         "passes matches_partially and PathSelector::matches_dir; oracle 3: as --exclude, no non-excluded file lies "
         "below a refused directory unless an ancestor is itself fully matched; command-line cross-check: every glob of <=2 (thorough 3) tokens given to the real binary as --name, --path and --exclude, with and without -i, on a fixed tree of 16 files: the selected set must be the reference matcher's (files below a fully excluded directory: don't care). distinct_nontrivial = number of "
@@ -32,6 +32,10 @@ def cases(tier, seed):
     for k, l in specs:
         n = SHARDS if k <= 3 else (SHARDS * 8 if k == 4 else SHARDS * 64)
         out += [{"tokens": k, "pathlen": l, "shard": "%d/%d" % (i, n)} for i in range(n)]
+    # path strings with control characters that are legal in file names (LF, TAB)
+    for k, l in ([(2, 5)] if tier == "quick" else [(3, 5), (2, 6)]):
+        n = 16 if k <= 2 else SHARDS
+        out += [{"tokens": k, "pathlen": l, "shard": "%d/%d" % (i, n), "alpha": "ctl"} for i in range(n)]
     # command-line cross-check: --name / --path / --exclude x -i on the real binary over a fixed tree
     n = 32 if tier == "quick" else 256
     out += [{"cli": True, "tokens": 2 if tier == "quick" else 3, "shard": "%d/%d" % (i, n)} for i in range(n)]
@@ -59,10 +63,12 @@ def evaluate(case):
         args = ["glob", "--one", case["one"], "--pathlen", str(case.get("pathlen", 4))]
         if case.get("ic"):
             args.append("--ic")
+        if case.get("alpha"):
+            args += ["--alpha", case["alpha"]]
         viol, summ = U.run_unit(args)
     else:
         viol, summ = U.run_unit(["glob", "--tokens", str(case["tokens"]), "--pathlen", str(case["pathlen"]),
-                                 "--shard", case["shard"]])
+                                 "--shard", case["shard"]] + (["--alpha", case["alpha"]] if case.get("alpha") else []))
     vs = []
     for v in viol:
         ex = v["examples"][0]
@@ -70,6 +76,8 @@ def evaluate(case):
         d["detail"] = "%d case(s), e.g. %s" % (v["count"], ex)
         d["replay_case"] = {"one": ex["glob"], "ic": v["sig"].get("ignore_case", False),
                             "pathlen": case.get("pathlen", 4)}
+        if case.get("alpha"):
+            d["replay_case"]["alpha"] = case["alpha"]
         vs.append(d)
     return {"violations": vs, "evaluations": summ["evaluations"],
             "counters": {"globs": summ["globs"], "matches": summ["matches"], "dir_checks": summ["dir_checks"],
